@@ -551,14 +551,18 @@ func genBelowBundle(r *rand.Rand) universe {
 	}
 	rv := ver{V: pick(r, verPool[:3]), Default: true}
 	for _, bn := range bnames {
-		bv := pick(r, bverPool)
+		bv := bundleVer(r)
 		b := bundle{Path: "node_modules/" + bn, Name: bn, Version: bv, D: bundleDeps()}
 		rv.Bundled = append(rv.Bundled, b)
-		rv.D.Reg = append(rv.D.Reg, pdep{bn, pick(r, []string{"*", "^" + bv, bv})})
+		wants := []string{"*", "^" + bv, bv}
+		if !isIn(bverPool, bv) {
+			wants = []string{"*", "*", bv} // no caret in front of something that is no version
+		}
+		rv.D.Reg = append(rv.D.Reg, pdep{bn, pick(r, wants)})
 		rv.D.Bundle = append(rv.D.Bundle, bn)
 		if r.Intn(3) == 0 { // a nested bundle, required by its parent, with dependencies of its own
 			nn := pick(r, leaves)
-			nv := pick(r, bverPool)
+			nv := bundleVer(r)
 			rv.Bundled = append(rv.Bundled, bundle{Path: b.Path + "/node_modules/" + nn, Name: nn, Version: nv, D: bundleDeps()})
 			pb := &rv.Bundled[len(rv.Bundled)-2]
 			has := false
@@ -566,7 +570,11 @@ func genBelowBundle(r *rand.Rand) universe {
 				has = has || x.Name == nn
 			}
 			if !has {
-				pb.D.Reg = append(pb.D.Reg, pdep{nn, pick(r, []string{"*", "^" + nv})})
+				w := "*"
+				if isIn(bverPool, nv) && r.Intn(2) == 0 {
+					w = "^" + nv
+				}
+				pb.D.Reg = append(pb.D.Reg, pdep{nn, w})
 			}
 		}
 		// the bundled package is also served on its own (or not: exists only in the bundle)
